@@ -12,14 +12,48 @@ from .path import is_quantified
 UNSAT, SAT, UNKNOWN = "unsat", "sat", "unknown"
 
 
-def _check(formulas, timeout_ms, logic=None, rlimit=None):
+# Budgets are CPU time of the solving process, not wall-clock time: a verdict must not depend on how busy the machine is (with all
+# 20 checks running at once every wall-clock budget shrinks by a factor of 20, and obligations that are discharged in 0.4 s on an idle
+# core were reported as not proved).  z3 has no CPU-time limit of its own and its resource counter does not advance in some of its
+# loops, so a watchdog thread interrupts the context when the process has used its budget; the wall-clock limit (WALL_FACTOR x the
+# budget) is only a safety net.
+WALL_FACTOR = 30
+
+
+def cpu_check(s, budget_ms):
+    """s.check() with a CPU-time budget"""
+    import threading
+
+    s.set("timeout", int(budget_ms * WALL_FACTOR))
+    c0 = time.process_time()
+    done = threading.Event()
+
+    def watch():
+        while not done.wait(0.02):
+            if (time.process_time() - c0) * 1000 > budget_ms:
+                s.ctx.interrupt()
+                return
+
+    th = threading.Thread(target=watch, daemon=True)
+    th.start()
+    try:
+        return s.check()
+    finally:
+        done.set()
+        th.join()
+
+
+def _check(formulas, timeout_ms, logic=None, rlimit=None, seed=None, mbqi=True):
     s = z3.Solver() if logic is None else z3.SolverFor(logic)
-    s.set("timeout", int(timeout_ms))
     if rlimit:
         s.set("rlimit", int(rlimit))
+    if seed is not None:
+        s.set("smt.random_seed", seed)
+    if not mbqi:
+        s.set("smt.mbqi", False)
     for f in formulas:
         s.add(f)
-    r = s.check()
+    r = cpu_check(s, timeout_ms)
     if r == z3.unsat:
         return UNSAT, None, s
     if r == z3.sat:
@@ -100,17 +134,24 @@ def _inst(f, terms):
     return []
 
 
+def _cpu_limit(seconds):
+    def f():
+        import resource
+        resource.setrlimit(resource.RLIMIT_CPU, (int(seconds), int(seconds) + 1))
+    return f
+
+
 def external(smt2, tool, timeout_s):
+    """run an external solver on the SMT-LIB dump; the budget is CPU time of the solver process (RLIMIT_CPU), the wall-clock
+    limit is only a safety net"""
     with tempfile.NamedTemporaryFile("w", suffix=".smt2", delete=False) as tf:
         tf.write(smt2)
         fn = tf.name
     try:
-        if tool == "cvc5":
-            cmd = ["/usr/bin/cvc5", f"--tlimit={int(timeout_s * 1000)}", fn]
-        else:
-            cmd = ["/usr/bin/z3", f"-T:{int(timeout_s)}", fn]
+        cmd = ["/usr/bin/cvc5", fn] if tool == "cvc5" else ["/usr/bin/z3", fn]
         try:
-            out = subprocess.run(cmd, capture_output=True, text=True, timeout=timeout_s + 5).stdout.strip()
+            out = subprocess.run(cmd, capture_output=True, text=True, timeout=timeout_s * WALL_FACTOR + 5,
+                                 preexec_fn=_cpu_limit(timeout_s)).stdout.strip()
         except subprocess.TimeoutExpired:
             return UNKNOWN
         first = out.splitlines()[0].strip() if out else ""
@@ -127,10 +168,10 @@ def discharge(ob, timeout_s=10, second_solver=False):
     if ob.expect_sat:
         # vacuity guard: only a *refuted* precondition (unsat) is a problem; unknown is accepted
         qf = [h for h in ob.hyps if not is_quantified(h)]
-        st, model, _ = _check(qf, 1500, rlimit=3000000)
+        st, model, _ = _check(qf, 1500)
         ob.backend = "z3-5.1(py) on the quantifier-free part"
         if st == SAT and len(qf) < len(ob.hyps):
-            st_full, _m, _ = _check(ob.hyps, 1500, rlimit=3000000)
+            st_full, _m, _ = _check(ob.hyps, 1500)
             if st_full == UNSAT:
                 st = UNSAT
                 ob.backend = "z3-5.1(py)"
@@ -149,21 +190,10 @@ def discharge(ob, timeout_s=10, second_solver=False):
         # quantifier instantiation is order sensitive (the same query is refuted in 10 ms or not in 10 s):
         # several short attempts with different seeds before a long one
         for seed, mbqi in ((0, True), (1, True), (2, False), (3, True), (4, False)):
-            s1 = z3.Solver()
-            s1.set("timeout", 800)
-            s1.set("smt.random_seed", seed)
-            if not mbqi:
-                s1.set("smt.mbqi", False)
-            for f in query:
-                s1.add(f)
-            r = s1.check()
-            solver = s1
-            if r == z3.unsat:
-                st = UNSAT
-                break
-            if r == z3.sat:
-                st, model = SAT, s1.model()
+            st, model, solver = _check(query, 800, seed=seed, mbqi=mbqi)
+            if st == SAT:
                 ob.backend = "z3-5.1(py) (model of the quantified query)"
+            if st != UNKNOWN:
                 break
     if st == UNKNOWN:
         first = timeout_s * 1000 if not has_q else min(3000, timeout_s * 1000)
@@ -191,7 +221,19 @@ def discharge(ob, timeout_s=10, second_solver=False):
                     ob.backend = tool + " (sat); witness from z3 ground instantiation"
                     break
             else:
-                if st2 == SAT:
+                if has_q:
+                    # last resort before giving up: the seeded attempts once more with a generous budget
+                    for seed, mbqi in ((0, True), (2, False), (5, True), (7, False)):
+                        st, model, _s = _check(query, 8000, seed=seed, mbqi=mbqi)
+                        if st == UNSAT:
+                            ob.backend = "z3-5.1(py) (long attempt)"
+                            break
+                        if st == SAT:
+                            ob.backend = "z3-5.1(py) (model of the quantified query)"
+                            break
+                if st != UNKNOWN:
+                    pass
+                elif st2 == SAT:
                     st, model = "candidate", model2
                     ob.backend = "not proved by z3-5.1/cvc5/z3-4.8; counter-model of the ground-instantiated query"
                 else:
